@@ -3,7 +3,7 @@ import spec
 from spec import hex_of
 
 OBLIGATION_MODULES = ["PyModeS.Properties.C10"]
-TIE_MODULES = ['PyModeS.Tie.Bds08', 'PyModeS.Tie.Callsign', 'PyModeS.Tie.Bds20']
+TIE_MODULES = ['PyModeS.Tie.Bds08', 'PyModeS.Tie.Callsign', 'PyModeS.Tie.Bds20', 'PyModeS.Tie.C10Gen']
 MAIN_THEOREM = "PyModeS.C10.callsign_roundtrip_frame / cs20_roundtrip / callsign_char_independent / cs20_char_independent / category_spec"
 RULE = ("every (position, 6-bit code) with random legal other characters, random legal 8-character strings, TC 1-4 x category, "
         "DF17/18 and DF20/21 carriers, guards; non-trivial = legal-alphabet identification decoded")
